@@ -212,6 +212,13 @@ class BehavioralRTLIRTypeCheckVisitorL1( bir.BehavioralRTLIRNodeVisitor ):
     # At L1 it's always signal assignment
     is_rhs_reinterpretable = not node.value._is_explicit
     if is_rhs_reinterpretable and ((not lhs_type(rhs_type)) or (rhs_type != lhs_type)):
+      # An implicitly sized RHS (integer literal / constant) that needs more
+      # bits than the LHS has would be silently truncated by the enforcer.
+      if isinstance( lhs_type, rdt.Vector ) and isinstance( rhs_type, rdt.Vector ) and \
+         rhs_type.get_length() > lhs_type.get_length():
+        raise PyMTLTypeError( s.blk, node.ast,
+          f'The LHS target#{i+1} has {lhs_type.get_length()} bits but '
+          f'the integer literal on RHS requires more bits ({rhs_type.get_length()})!' )
       s.enforcer.enter( s.blk, target.Type, node.value )
 
     rhs_type = node.value.Type.get_dtype()
